@@ -186,7 +186,8 @@ class Injector:
         if replies:
             allowed = False
             if is_init_req and self.via != 'sa':
-                allowed = True      # answer of the fresh responder object, not of the keyed IKE_SA
+                # answer of the fresh responder object, not of the keyed IKE_SA: an IKE_SA_INIT message in the clear - never a protected message of an IKE_SA that exists
+                allowed = all(len(r_) >= 28 and r_[18] == 34 for r_ in replies)
             elif is_init_req and self.sa.state == State.INIT_RES_SENT and not self.sa.is_initiator and int.from_bytes(data[20:24], 'big') == 0:
                 allowed = replies == [bytes(self.sa.last_sent_response_data)]
                 ck.count('reply.cached_init_response')
@@ -248,6 +249,12 @@ def forge_all(ck, inj, rng, thorough):
                 m = {'spi_i': spi_i, 'spi_r': spi_r, 'major': 2, 'minor': 0, 'exch': exch, 'mid': exp, 'flags': (0x08 if peer_is_init else 0) | (0x20 if resp else 0),
                      'payloads': [{'type': 41, 'critical': False, 'proto': 0, 'spi': b'', 'ntype': nt, 'data': b'' if nt != 17 else b'\x00\x13'}]}
                 inj.inject('clear.notify-sweep', codec.encode_clear(m), (exch, resp, nt))
+    # ---- (a0) the ORIGINAL IKE_SA_INIT request of this IKE_SA again, octet for octet (a late duplicate, a replay from a spoofed address), in whatever state the IKE_SA is now
+    for w in inj.sim.wire:
+        if w[2] == inj.my_addr and len(w[3]) >= 28 and w[3][18] == 34 and not w[3][19] & 0x20 and bytes(w[3][:8]) == spi_i and not sa.is_initiator:
+            inj.inject('replay.original-ike-sa-init-request', bytes(w[3]), (34, False, 0))
+            ck.count('forgery.replays_of_the_original_ike_sa_init_request')
+            break
     # ---- (b) corruptions of authentic datagrams
     sim = inj.sim
     bases = []
